@@ -722,6 +722,25 @@ RE_(e) ==
     [] e.k = "item" -> RE_(e.a) \o "@" \o ToString(e.i)
     [] OTHER -> "?"
 
+\* Rendering with the FEWEST parentheses the grammar of parse_expression.cpp allows (levels: 1 logic,
+\* 2 relation, 3 bit logic, 4 shift, 5 sum, 6 term, 7 unary, 8 exponent (right associative), 9 element):
+\* the text means the AST only if the parser implements the manual's precedence and associativity.
+OpLevel(op) == CASE op \in {"and", "or", "xor", "&&", "||"} -> 1 [] op \in RelOps -> 2 [] op \in {"|", "^", "&"} -> 3
+                 [] op \in {"<<", ">>"} -> 4 [] op \in {"+", "-"} -> 5 [] op \in {"*", "/", "%"} -> 6 [] op \in {"**", "power"} -> 8 [] OTHER -> 9
+ELevel(e) == IF e.k = "bin" THEN OpLevel(e.op) ELSE IF e.k = "un" THEN 7 ELSE 9
+RECURSIVE RM(_, _)
+RM(e, min) ==
+  LET t == CASE e.k = "bin" ->
+                  IF OpLevel(e.op) = 8 THEN RM(e.a, 9) \o " " \o e.op \o " " \o RM(e.b, 8)
+                  ELSE IF OpLevel(e.op) = 2 THEN RM(e.a, 3) \o " " \o e.op \o " " \o RM(e.b, 3)      \* relations do not chain
+                  ELSE RM(e.a, OpLevel(e.op)) \o " " \o e.op \o " " \o RM(e.b, OpLevel(e.op) + 1)
+             [] e.k = "un" -> (IF e.op = "not" THEN "not " ELSE e.op) \o RM(e.a, 8)
+             [] e.k = "paren" -> "(" \o RM(e.a, 1) \o ")"
+             [] e.k = "call" -> IF e.f = "error" THEN "error" ELSE e.f \o "(" \o Join([i \in DOMAIN e.as |-> RM(e.as[i], 1)], ", ") \o ")"
+             [] OTHER -> RE_(e)
+  IN  IF ELevel(e) < min THEN "(" \o t \o ")" ELSE t
+RMin(e) == RM(e, 1)
+
 RList(ss) == Join([i \in DOMAIN ss |-> RS(ss[i])], " ")
 
 RHandlers(hs) == Join([i \in DOMAIN hs |-> "when " \o hs[i].w \o " then " \o RList(hs[i].b)], " ")
